@@ -21,6 +21,7 @@
 #include "simhelp.h"
 #include <iostream>
 #include <sstream>
+#include <filesystem>
 
 using namespace gtry;
 using vh::Rng;
@@ -113,6 +114,7 @@ static void runCase(uint64_t id, Rng rng, size_t nEvents, std::ostream &o) {
 	Bit push, pop; UInt pushData, afLevel, aeLevel;
 	hlim::Node_Pin *oFull = nullptr, *oEmpty = nullptr, *oAf = nullptr, *oAe = nullptr, *oPushValid = nullptr, *oPopValid = nullptr;
 	hlim::Node_Pin *oPeek = nullptr, *oPushSize = nullptr, *oPopSize = nullptr;
+	hlim::Node_Pin *pPush = nullptr, *pPop = nullptr, *pData = nullptr, *pAfl = nullptr, *pAel = nullptr;
 	size_t lw = 0, lr = 0;
 	try {
 		XFifo fifo{ minDepth, UInt{ BitWidth(w) }, mkLat(lat) };
@@ -121,9 +123,9 @@ static void runCase(uint64_t id, Rng rng, size_t nEvents, std::ostream &o) {
 			ClockScope cs(pushClock);
 			pushData = BitWidth(w);
 			IF(push) fifo.push(pushData);
-			push = pinIn().setName("push");
-			pushData = pinIn(BitWidth(w)).setName("push_data");
-			afLevel = pinIn(BitWidth(k + 1)).setName("af_level");
+			auto ipPush = pinIn().setName("push"); pPush = ipPush.node(); push = ipPush;
+			auto ipData = pinIn(BitWidth(w)).setName("push_data"); pData = ipData.node(); pushData = ipData;
+			auto ipAfl = pinIn(BitWidth(k + 1)).setName("af_level"); pAfl = ipAfl.node(); afLevel = (UInt)ipAfl;
 			oFull = pinOut(fifo.full()).setName("full").node();
 			oAf = pinOut(fifo.almostFull(afLevel)).setName("af").node();
 		}
@@ -131,13 +133,14 @@ static void runCase(uint64_t id, Rng rng, size_t nEvents, std::ostream &o) {
 			ClockScope cs(popClock);
 			UInt peek = fifo.peek();
 			IF(pop) fifo.pop();
-			pop = pinIn().setName("pop");
-			aeLevel = pinIn(BitWidth(k + 1)).setName("ae_level");
+			auto ipPop = pinIn().setName("pop"); pPop = ipPop.node(); pop = ipPop;
+			auto ipAel = pinIn(BitWidth(k + 1)).setName("ae_level"); pAel = ipAel.node(); aeLevel = (UInt)ipAel;
 			oPeek = pinOut(peek).setName("peek").node();
 			oEmpty = pinOut(fifo.empty()).setName("empty").node();
 			oAe = pinOut(fifo.almostEmpty(aeLevel)).setName("ae").node();
 		}
-		fifo.generate();
+		if (dual) fifo.generate(); // generateCdc names both clocks explicitly
+		else { ClockScope cs(pushClock); fifo.generate(); } // the single-clock delay chain registers use the ambient clock (Fifo.h:321-329)
 		{
 			ClockScope cs(pushClock);
 			oPushValid = pinOut(fifo.pushValid()).setName("push_valid").node();
@@ -152,7 +155,8 @@ static void runCase(uint64_t id, Rng rng, size_t nEvents, std::ostream &o) {
 		lr = fifo.choice().latency_readToFull;
 		HCL_DESIGNCHECK(fifo.choice().singleClock == !dual);
 		design.postprocess();
-	} catch (const gtry::utils::DesignError &) {
+	} catch (const gtry::utils::DesignError &e) {
+		if (getenv("C15_VERBOSE")) std::cerr << "case " << id << ": " << e.what() << "\n";
 		o << hdr.str() << " err=e\nend\n";
 		return;
 	} catch (const gtry::utils::InternalError &) {
@@ -170,7 +174,6 @@ static void runCase(uint64_t id, Rng rng, size_t nEvents, std::ostream &o) {
 	sim.compileProgram(design.getCircuit());
 	sim.powerOn();
 
-	auto *pPush = pinOf(push), *pPop = pinOf(pop), *pData = pinOf(pushData), *pAfl = pinOf(afLevel), *pAel = pinOf(aeLevel);
 	auto set = [&](hlim::Node_Pin *pin, const std::string &bits) {
 		sim.simProcSetInputPin(pin, sim::convertToExtended(vh::bitsFromString(bits)));
 	};
@@ -265,6 +268,8 @@ int main(int argc, char **argv) {
 	uint64_t ncases = vh::argU64(argc, argv, 2, 10);
 	uint64_t nEvents = vh::argU64(argc, argv, 3, 200);
 	std::ios::sync_with_stdio(false);
+	// gatery may drop debug visualisations (*.dot) into the cwd when a design check fails: keep them out of the tree
+	{ std::error_code ec; std::filesystem::current_path(std::filesystem::temp_directory_path(), ec); }
 	std::cout << "# prop=C15 seed=" << seed << " ncases=" << ncases << " events=" << nEvents << "\n";
 	Rng master(seed * 0x1000193ull + 15);
 	for (uint64_t c = 0; c < ncases; c++) {
